@@ -50,6 +50,13 @@ class TlcResult:
         self.action_violated = re.findall(r"Error: Action property (\w+) is violated", out)
         self.errors = [l for l in out.splitlines() if l.startswith("Error:")]
 
+    def json_cases(self, tag="CASE"):
+        """values printed with PrintT(<<tag, ToJson(v)>>), decoded"""
+        out = []
+        for m in re.finditer(r'^<<"%s", (".*")>>\s*$' % re.escape(tag), self.out, flags=re.M):
+            out.append(json.loads(json.loads(m.group(1))))
+        return out
+
     def printed(self, tag):
         """All tuples TLC printed with PrintT(<<tag, ...>>): returns list of raw inner strings."""
         return re.findall(r'<<"%s", (.*?)>>\s*$' % re.escape(tag), self.out, flags=re.M)
@@ -131,6 +138,8 @@ class Check:
         self.rule = ""
         self.exhaustive = False
         self.legs = {}
+        for old in (VERIF / "replays").glob("%s-%s-*.json" % (pid, tier)):
+            old.unlink()
 
     # -- bookkeeping ------------------------------------------------------------------------
     def add_tlc(self, leg, res):
@@ -250,11 +259,12 @@ def validate_batch(spec, cfg, events, *, idkey="tid", workers=None, timeout=3600
             shutil.rmtree(wd, ignore_errors=True)
     verdicts = {}
     for m in re.finditer(r'<<"%s", (-?\d+), "([^"]*)">>' % tag, res.out):
-        i = int(m.group(1))
-        v = m.group(2)
-        if i in verdicts and verdicts[i] != v:
-            raise MachineryFailure("two verdicts for event %d: %s / %s" % (i, verdicts[i], v))
-        verdicts[i] = v
+        verdicts.setdefault(int(m.group(1)), [])
+        if m.group(2) not in verdicts[int(m.group(1))]:
+            verdicts[int(m.group(1))].append(m.group(2))
+    for i, vs in verdicts.items():
+        if "ok" in vs and len(vs) > 1:
+            raise MachineryFailure("event %d judged both ok and %s" % (i, vs))
     ids = [ev[idkey] for ev in events]
     missing = [i for i in ids if i not in verdicts]
     if missing:
